@@ -3,3 +3,4 @@ import Rp2.Props.C10
 #print axioms Rp2.C10.model_window_only_hides
 #print axioms Rp2.C10.model_window_is_filter
 #print axioms Rp2.C10.model_from_date_only_hides
+#print axioms Rp2.C10.source_iterator_is_window
